@@ -8,4 +8,5 @@ INVARIANT Trichotomy
 INVARIANT OrderTransitive
 INVARIANT OrderAntisymmetric
 INVARIANT EqualHashEqual
+INVARIANT SubEqualHashEqual
 CHECK_DEADLOCK FALSE
